@@ -189,14 +189,46 @@ def errorsOf (s : CState V) : List (Cache.Key × Err) :=
 def allDone (s : CState V) : Bool :=
   s.threads.all fun th => th.todo.isEmpty && (match th.pc with | .idle => true | _ => false)
 
-/-- a thread's shared-state actions are `start`, `iter` (next) and `append`; `idle`, `compare` and
-`compute` touch only the thread itself.  `coarse` runs thread `t` through one shared action and
-then through its local actions, which is what one scheduling quantum of the traced scheduler of
-harness/c13.py amounts to (the thread is released at one scheduling point and runs to the next). -/
-def isLocal (th : CThread V) : Bool :=
-  match th.pc with
-  | .compare .. => true
-  | .compute _ => true
-  | _ => false
+/-- The traced scheduler of harness/c13.py stops a thread BEFORE source lines (the `for` line, the
+`if ax == axes` line, the `append` line): one quantum of a real thread is one model step plus the
+steps that follow on the same source line or on lines that are not scheduling points — the first
+`next()` after creating the iterator, and building the result after the loop is exhausted. -/
+def absorbedAt (s : CState V) (t : Nat) : Bool :=
+  match s.threads[t]? with
+  | some th =>
+    (match th.pc with
+     | .iter _ _ 0 _ => true
+     | .compute _ => true
+     | _ => false)
+  | none => false
+
+/-- one quantum of thread `t`: the new state and the fine schedule it stands for -/
+def quantum (mode : Mode) (compute : Cache.Key → V) (t : Nat) (s : CState V) : CState V × List Nat :=
+  let s1 := cstep mode compute t s
+  if absorbedAt s1 t then
+    let s2 := cstep mode compute t s1
+    if absorbedAt s2 t then (cstep mode compute t s2, [t, t, t]) else (s2, [t, t])
+  else (s1, [t])
+
+/-- a coarse schedule (one thread id per quantum): final state and the fine schedule it stands for -/
+def coarseRun (mode : Mode) (compute : Cache.Key → V) : List Nat → CState V → CState V × List Nat
+  | [], s => (s, [])
+  | t :: ts, s =>
+    let q := quantum mode compute t s
+    let r := coarseRun mode compute ts q.1
+    (r.1, q.2 ++ r.2)
+
+/-- where a thread is parked, for comparison with the traced scheduler's point kinds -/
+def pcKind (s : CState V) (t : Nat) : String :=
+  match s.threads[t]? with
+  | some th =>
+    (match th.pc with
+     | .idle => if th.todo.isEmpty then "done" else "idle"
+     | .start _ => "start"
+     | .iter .. => "iter"
+     | .compare .. => "compare"
+     | .compute _ => "compute"
+     | .append .. => "append")
+  | none => "none"
 
 end SparseV.Interleave
